@@ -154,7 +154,9 @@ def c04_job(pid, job, bins, tier, seed, workdir, ev, drv):
 
 
 def case_key(case):
-    return hashlib.sha1(json.dumps([case["input"], case["modes"], case["list"], case["macro"], case["fnc1"], case["eci"]]).encode()).hexdigest()[:12]
+    # the symbol list enters as a SET of names: the finding does not depend on the order in which the implementation iterates
+    # symbols of equal capacity
+    return hashlib.sha1(json.dumps([case["input"], case["modes"], sorted(case["list"]), case["macro"], case["fnc1"], case["eci"]]).encode()).hexdigest()[:12]
 
 
 def c10_min_job(pid, job, bins, tier, seed, workdir, ev, drv):
